@@ -4,6 +4,7 @@
 import Kopf.Model.C14_Resume
 import Kopf.Lemmas.C14_Resume
 import Kopf.Lemmas.C14_Step
+import Kopf.Lemmas.C14_Results
 namespace Kopf.C14
 open Kopf Kopf.C02
 
@@ -642,5 +643,140 @@ example :
         exec := fun _ _ => { final := true, delay := none, error := false, subrefs := [] } }
     (step [⟨"r", ⟨none, true, false⟩⟩] none (fun _ => none) e).invoked = [("r", 0)] ∧
     (step [⟨"r", ⟨none, true, false⟩⟩] none (fun _ => none) e).closed = true := by decide
+
+/-! ### Cycles cut short by an exception: results the framework cannot deliver, patches that do not arrive
+
+`process_changing_cause` delivers the handlers' results into the patch BEFORE it notes in the memory which resuming
+handlers have finished, and the patch is sent AFTER that (`Model/C14_Results.lean`). The at-most-once clause survives
+every failure after the bookkeeping — whatever the results, whatever is lost — and exactly the failures before it break it. -/
+
+/-- After the step in which a resuming handler reached a final outcome, it is settled in the memory that step leaves. -/
+theorem settled_after_completion (decls : List Decl) (d : Decl) (hd : d ∈ decls)
+    (hres : ∀ d' ∈ decls, d'.id = d.id → d'.gate.initial = true)
+    (m : Option Mem) (P : Store) (e : Event) (hde : e.deleted = false) (n : Nat)
+    (hinv : (d.id, n) ∈ (step decls m P e).invoked) (hfin : (e.exec d.id n).final = true) :
+    Settled d.id (step decls m P e).mem := by
+  have hsup : e.suppressed = false := by
+    cases hs : e.suppressed
+    · rfl
+    · rw [step_suppressed _ _ _ _ hs] at hinv; simp at hinv
+  rw [(step_eq decls m P e hsup).1] at hinv
+  rw [(step_eq decls m P e hsup).2.2]
+  simp only [hde, Bool.false_eq_true, if_false]
+  refine ⟨_, rfl, ?_⟩
+  by_cases hc : (passOf decls (recall m e) e P).closed = true
+  · left; simp [hc]
+  · right
+    simp only [hc, Bool.false_eq_true, if_false, finalsOf, List.mem_append, List.mem_filter]
+    right
+    refine ⟨invoked_final_in_finals _ _ e.now e.now1 e.exec d.id n hinv hfin, ?_⟩
+    simp only [isInitial, List.any_eq_true]
+    exact ⟨d, hd, by simp [hres d hd rfl]⟩
+
+/-- A settled handler stays settled through a cycle however it ends (through, patch lost, cut before the bookkeeping). -/
+theorem settled_preserved_with (raises : List ResultShape → Bool) (decls : List Decl) (i : Id) (m : Option Mem)
+    (hs : Settled i m) (P : Store) (x : EventR) (hde : x.e.deleted = false) :
+    Settled i (stepWith raises decls m P x.e x.rs x.patchLost).mem := by
+  rcases stepWith_mem raises decls m P x.e x.rs x.patchLost with h | ⟨h, _⟩
+  · rw [h]; exact settled_preserved decls i m hs P x.e hde
+  · rw [h]
+    obtain ⟨mem, rfl, hor⟩ := hs
+    simp only [hde, Bool.false_eq_true, if_false]
+    exact ⟨_, rfl, by rw [recall_some_fullyHandled, recall_some_resumed]; exact hor⟩
+
+/-- THE SECOND CLAUSE WITH FAILING CYCLES, unguarded but for one hypothesis: if the delivery of the results of the pass
+    in which a resume handler reached its final outcome did not raise (`hok`), the handler is never invoked again for this
+    object in this process — whatever the handlers return later, whichever later cycles are cut (before or after the
+    bookkeeping), whichever patches are lost (the completing pass's own included: `x.patchLost`, `wireRaises x.rs`).
+    For ANY rule `raises` of what makes the delivery raise. -/
+theorem completed_never_again_results (raises : List ResultShape → Bool) (decls : List Decl) (d : Decl) (hd : d ∈ decls)
+    (hres : ∀ d' ∈ decls, d'.id = d.id → d'.gate.initial = true)
+    (m : Option Mem) (P : Store) (x : EventR) (hde : x.e.deleted = false) (n : Nat)
+    (hinv : (d.id, n) ∈ (stepWith raises decls m P x.e x.rs x.patchLost).invoked)
+    (hfin : (x.e.exec d.id n).final = true) (hok : raises x.rs = false)
+    (rest : List EventR) (hdel : ∀ y ∈ rest, y.e.deleted = false) :
+    ∀ l ∈ runWith raises decls (stepWith raises decls m P x.e x.rs x.patchLost).mem
+            (stepWith raises decls m P x.e x.rs x.patchLost).P rest, ∀ k, (d.id, k) ∉ l := by
+  rw [stepWith_invoked] at hinv
+  have hset : Settled d.id (stepWith raises decls m P x.e x.rs x.patchLost).mem := by
+    rw [stepWith_mem_of_not_raises raises decls m P x.e x.rs x.patchLost hok]
+    exact settled_after_completion decls d hd hres m P x.e hde n hinv hfin
+  generalize (stepWith raises decls m P x.e x.rs x.patchLost).mem = m' at hset
+  generalize (stepWith raises decls m P x.e x.rs x.patchLost).P = P'
+  induction rest generalizing m' P' with
+  | nil => intro l hl; simp [runWith] at hl
+  | cons y rest ih =>
+    intro l hl k
+    simp only [runWith, List.mem_cons] at hl
+    rcases hl with rfl | hl
+    · rw [stepWith_invoked]; exact settled_not_invoked decls d.id hres m' hset P' y.e k
+    · exact ih (fun z hz => hdel z (by simp [hz])) _
+        (settled_preserved_with raises decls d.id m' hset P' y (hdel y (by simp))) _ l hl k
+
+/-- … for the code as it is: it is enough that every result of the completing pass is None, a mapping, or something
+    `copy.deepcopy` takes — in particular EVERY result JSON cannot write down but Python can copy (datetime, set, Decimal,
+    bytes, a view inside a dict): the patch fails on the wire, the handler is still not repeated. -/
+theorem completed_never_again_copyable (decls : List Decl) (d : Decl) (hd : d ∈ decls)
+    (hres : ∀ d' ∈ decls, d'.id = d.id → d'.gate.initial = true)
+    (m : Option Mem) (P : Store) (x : EventR) (hde : x.e.deleted = false) (n : Nat)
+    (hinv : (d.id, n) ∈ (stepR decls m P x.e x.rs x.patchLost).invoked)
+    (hfin : (x.e.exec d.id n).final = true)
+    (hok : ∀ r ∈ x.rs, r.isNone = true ∨ r.isMapping = true ∨ r.copyable = true)
+    (rest : List EventR) (hdel : ∀ y ∈ rest, y.e.deleted = false) :
+    ∀ l ∈ runR decls (stepR decls m P x.e x.rs x.patchLost).mem (stepR decls m P x.e x.rs x.patchLost).P rest,
+      ∀ k, (d.id, k) ∉ l := by
+  refine completed_never_again_results deliveryRaises decls d hd hres m P x hde n hinv hfin ?_ rest hdel
+  unfold deliveryRaises
+  rw [List.any_eq_false]
+  intro r hr
+  rcases hok r hr with h | h | h <;> simp [h]
+
+/-- The other direction, universally: a cycle cut before the bookkeeping is repeated IN FULL — the same handlers, the same
+    attempt numbers — by the same event seen again (a re-listing of the unchanged object), finished handlers included. -/
+theorem cut_before_memory_repeats (decls : List Decl) (m : Option Mem) (P : Store) (e : Event) (hde : e.deleted = false) :
+    (step decls (cutBeforeMemory decls m P e).mem (cutBeforeMemory decls m P e).P e).invoked = (step decls m P e).invoked := by
+  simp only [cutBeforeMemory, hde, Bool.false_eq_true, if_false]
+  rw [step_recalled]
+
+/-- FALSE OF THE CODE (open finding F11): a resume handler that returns something that is not a mapping and that
+    `copy.deepcopy` rejects (a lock, a generator, a coroutine — the forgotten `await` —, an open file) completes, and
+    completes again at every later event of the object: the re-listing, the reconnect, the re-listing after that.
+    Replayed on the real code on every run (corpus/C14/F11_uncopyable_result.json). -/
+theorem uncopyable_result_witness :
+    let e : Event :=
+      { byListing := true, deleted := false, marked := false, blocked := false, oldAbsent := false,
+        diffNonEmpty := false, suppressed := false, matchF := fun _ => true,
+        limits := fun _ => ⟨none, none⟩, lifecycle := .allAtOnce, now := 0, now1 := 0,
+        exec := fun _ _ => { final := true, delay := none, error := false, subrefs := [] } }
+    let lock : ResultShape := { isNone := false, isMapping := false, copyable := false, jsonRaw := false, jsonPatch := false }
+    runR [⟨"r", ⟨none, true, false⟩⟩] none (fun _ => none) [⟨e, [lock], false⟩, ⟨e, [lock], false⟩, ⟨e, [lock], false⟩]
+      = [[("r", 0)], [("r", 0)], [("r", 0)]] := by decide
+
+/-- The seeded variant C14f (every result normalised through `json.loads(json.dumps(…))` in `deliver_results`): a result
+    that Python copies but JSON cannot write down (a dict with a datetime in it) repeats the finished handler at every
+    later event, where the code as it is runs it once (the patch fails on the wire, after the bookkeeping). -/
+theorem json_normalised_variant_witness :
+    let e : Event :=
+      { byListing := true, deleted := false, marked := false, blocked := false, oldAbsent := false,
+        diffNonEmpty := false, suppressed := false, matchF := fun _ => true,
+        limits := fun _ => ⟨none, none⟩, lifecycle := .allAtOnce, now := 0, now1 := 0,
+        exec := fun _ _ => { final := true, delay := none, error := false, subrefs := [] } }
+    let dt : ResultShape := { isNone := false, isMapping := true, copyable := true, jsonRaw := false, jsonPatch := false }
+    let h : List EventR := [⟨e, [dt], false⟩, ⟨e, [dt], false⟩, ⟨e, [dt], false⟩]
+    runJson [⟨"r", ⟨none, true, false⟩⟩] none (fun _ => none) h = [[("r", 0)], [("r", 0)], [("r", 0)]] ∧
+    runR [⟨"r", ⟨none, true, false⟩⟩] none (fun _ => none) h = [[("r", 0)], [], []] := by decide
+
+-- non-vacuity of `completed_never_again_results` / `_copyable`: the datetime-in-a-dict result, patch lost on the wire
+example :
+    let e : Event :=
+      { byListing := true, deleted := false, marked := false, blocked := false, oldAbsent := false,
+        diffNonEmpty := false, suppressed := false, matchF := fun _ => true,
+        limits := fun _ => ⟨none, none⟩, lifecycle := .allAtOnce, now := 0, now1 := 0,
+        exec := fun _ _ => { final := true, delay := none, error := false, subrefs := [] } }
+    let dt : ResultShape := { isNone := false, isMapping := true, copyable := true, jsonRaw := false, jsonPatch := false }
+    let s := stepR [⟨"r", ⟨none, true, false⟩⟩] none (fun _ => none) e [dt] false
+    ("r", 0) ∈ s.invoked ∧ (e.exec "r" 0).final = true ∧ deliveryRaises [dt] = false ∧ wireRaises [dt] = true ∧
+      s.mem = some { noticed := some true, fullyHandled := true, resumed := [] } := by
+  refine ⟨by decide, by decide, by decide, by decide, by decide⟩
 
 end Kopf.C14
